@@ -8,9 +8,9 @@ def caughtFn : List LoadErr := []
 /-- a catch-all (`Exception`/`BaseException`/bare except) is listed -/
 def caughtFnAll : Bool := true
 
-/-- `except` classes around `pickle.load` in Rec: EOFError, UnpicklingError, IndexError -/
-def caughtRec : List LoadErr := [.eof, .unpickling, .index]
+/-- `except` classes around `pickle.load` in Rec: EOFError, Exception -/
+def caughtRec : List LoadErr := [.eof]
 /-- a catch-all (`Exception`/`BaseException`/bare except) is listed -/
-def caughtRecAll : Bool := false
+def caughtRecAll : Bool := true
 
 end NutilsVerif.C18.Gen
